@@ -960,6 +960,7 @@ pub fn san_spellings(p: &Pos, m: Mv) -> Vec<San> {
     if kind == Kind::P {
         if capture {
             hints.push((Some(file_of(m.from)), None)); // exd5: the file is mandatory
+            hints.push((Some(file_of(m.from)), Some(rank_of(m.from)))); // e4xd5: the fuller form
         } else {
             hints.push((None, None));
         }
